@@ -241,6 +241,19 @@ Call == /\ Live /\ Growing
                                /\ \E ind \in BOOLEAN : Emit(IF ind THEN <<I("i32.const", "slot", s), I("call_indirect", s, "")>> ELSE <<I("call", s, "")>>)
         /\ UNCHANGED <<cstack, bad, fin>>
 
+(* loop-carried values: inside a loop, one scratch local takes the value of another, which is then advanced
+   (prev := cur ; cur := cur + c).  At the back-edge the two locals are block parameters whose arguments form a chain
+   (the new prev is the old cur): parallel-move resolution has to order or split the moves.  The old prev is pushed first,
+   so every iteration leaves an observable value. *)
+LoopShift ==
+  /\ Live /\ Growing /\ Idioms /\ Top.loops > 0
+  /\ \E t \in {"i32", "i64"} :
+       LET cur == TmpOf(t)  prev == TmpOf(t) + 1 IN
+       /\ Emit(<<I("local.get", prev, ""), I("local.get", cur, ""), I("local.set", prev, ""),
+                 I("local.get", cur, ""), I(t \o ".const", "const", ""), I(t \o ".add", "", ""), I("local.set", cur, "")>>)
+       /\ vstack' = Append(vstack, t)
+  /\ UNCHANGED <<cstack, bad, fin>>
+
 (* calls of wide signatures: the operands come from the scratch locals (alternating between the two of each type), so
    the call is possible whatever is on the stack; as a tail call when the callee's results are the function's *)
 Supply2(ts) == [k \in 1..Len(ts) |-> I("local.get", TmpOf(ts[k]) + (k % 2), "")]
@@ -584,7 +597,7 @@ MutateInvalid ==
 Step == \/ Plain \/ MemLoad \/ MemStore \/ MemLane \/ LocalGet \/ LocalSet \/ GlobalGet \/ GlobalSet \/ Drop \/ Select \/ Call
         \/ SetAddr \/ MemLoadReg \/ MemStoreReg \/ MemStoreAtom \/ GuardedAccess \/ FusedBin
         \/ MemSize \/ MemGrow \/ Bulk \/ RefProduce \/ RefConsume \/ TableOps \/ BrTable
-        \/ Atomic \/ AtomicAtom \/ Fence \/ TailCall \/ HostCall \/ OpenMulti \/ DeadCode \/ CallWide \/ ValidSnippet
+        \/ Atomic \/ AtomicAtom \/ Fence \/ TailCall \/ HostCall \/ OpenMulti \/ DeadCode \/ CallWide \/ ValidSnippet \/ LoopShift
         \/ OpenBlock \/ OpenLoop \/ OpenIf \/ Else \/ End \/ BrIf \/ Exit \/ Close \/ Finish \/ MutateInvalid
 (* a comparison result is consumed by a conditional most of the time (OpenIf is enabled whenever the guard holds) *)
 Next == IF pend # "" THEN PickRel
@@ -592,6 +605,10 @@ Next == IF pend # "" THEN PickRel
         THEN RefConsume /\ pend' = ""
         ELSE IF Idioms /\ JustCompared /\ Live /\ Growing /\ Len(cstack) < 5 /\ Len(code) % 4 # 3
         THEN (OpenIf \/ BrIf) /\ pend' = ""
+        ELSE IF Idioms /\ Live /\ Growing /\ Top.loops > 0 /\ Mix % 6 = 2
+        THEN LoopShift /\ pend' = ""           \* loop-carried values, regularly inside loops
+        ELSE IF Idioms /\ Live /\ Growing /\ Len(cstack) < 4 /\ Top.loops < 2 /\ Mix % 31 = 7
+        THEN OpenLoop /\ pend' = ""            \* loops are where block parameters come from: opened now and then, not one choice in hundreds
         ELSE IF Has("dead") /\ Live /\ Growing /\ Len(cstack) > 1 /\ Top.kind \in {"if", "else", "block"} /\ Mix % 5 = 1
         THEN ExitSupplied /\ pend' = ""        \* an unconditional exit now and then, so that dead code is generated
         ELSE (Step /\ pend' = "") \/ FusedAtoms
